@@ -264,45 +264,39 @@ func (c *Classifier) Normalize(in []byte) []byte {
 		panic("should not be reachable, since bytes.NewReader().Read() should never fail")
 	}
 
+	if len(doc.Tokens) == 0 {
+		return nil
+	}
+
 	var buf bytes.Buffer
 
-	switch len(doc.Tokens) {
-	case 0:
-		return nil
-	case 1:
-		// Only write tokens that aren't EOL
-		if txt := dict.getWord(doc.Tokens[0].ID); txt != eol {
-			buf.WriteString(txt)
-		}
-		return buf.Bytes()
-	}
-
+	// The text starts on line 1. The first token usually lies on that line, but
+	// not always: the first lines can have been removed without leaving an
+	// end-of-line token behind (a notice that ends in a word hyphenated over the
+	// line break). It is therefore treated like every other token.
 	prevLine := 1
-	// The first token can be an EOL token (the input starts with a blank line or
-	// with a line that was removed). Line breaks are written from the line
-	// numbers below, so it must not be written out itself.
-	if txt := dict.getWord(doc.Tokens[0].ID); txt != eol {
-		buf.WriteString(txt)
-	}
-	for _, t := range doc.Tokens[1:] {
+	// wordOnLine tells whether a word has been written on the current line.
+	wordOnLine := false
+	for _, t := range doc.Tokens {
 		// Write a line break for every line the token lies behind the previous one.
 		// That is usually one, the end-of-line token having the number of the line
 		// it ends; a word that was hyphenated over line breaks is followed by a
 		// token that lies several lines further.
 		for l := prevLine; l < t.Line; l++ {
 			buf.WriteString(eol)
+			wordOnLine = false
 		}
 
-		// Only write tokens that aren't EOL
-		txt := dict.getWord(t.ID)
-
-		if txt != eol {
-			// Only put a space between tokens if the previous token was on the same
-			// line. This prevents spaces after an EOL
-			if t.Line == prevLine {
+		// Only write tokens that aren't EOL: the line breaks are written from the
+		// line numbers.
+		if txt := dict.getWord(t.ID); txt != eol {
+			// Only put a space between tokens of the same line. This prevents spaces
+			// after an EOL
+			if wordOnLine {
 				buf.WriteString(" ")
 			}
 			buf.WriteString(txt)
+			wordOnLine = true
 		}
 
 		prevLine = t.Line
